@@ -16,7 +16,7 @@ RULE = ('Loop trees are obtained with the real X12ContextReader from generated d
         'Segment/Composite/Element or child list shared. non-trivial = distinct histories with >=1 mutating call.')
 ASSUMPTIONS = ['qualified paths are generated only for segments whose map node has a first-element ID qualifier list (elsewhere the qualifier is ignored by design)',
                'values written contain no delimiter characters; the link from a copy\'s root to its enclosing context is not counted as shared mutable data']
-REQUIRED_COUNTERS = ['ops:from-below', 'ops:from-below:depth-2', 'histories', 'ops:get', 'ops:set', 'ops:count', 'ops:add_segment', 'ops:add_loop', 'ops:delete_segment', 'ops:delete_node', 'ops:copy', 'ops:add_node',
+REQUIRED_COUNTERS = ['ops:delete_segment:near-miss', 'ops:from-below', 'ops:from-below:depth-2', 'histories', 'ops:get', 'ops:set', 'ops:count', 'ops:add_segment', 'ops:add_loop', 'ops:delete_segment', 'ops:delete_node', 'ops:copy', 'ops:add_node',
                      'ops:garbage', 'serialisations-compared', 'copy:parent-path-edits']
 MIN_CASES = {'quick': 1200, 'thorough': 40000}
 WATCHDOG_S = {'quick': 1200, 'thorough': 7200}
@@ -615,6 +615,18 @@ class History(object):
             return
         i, s = self.rng.choice(segs)
         text = s.raw()
+        if self.rng.random() < 0.3 and s.els:
+            # a near miss: the same segment with one component more, or one fewer, in one of its elements (equal as far as the shorter one goes,
+            # but not the segment that is there): nothing may be deleted unless such a segment really is in the loop
+            import copy as _copy
+            s = _copy.deepcopy(s)
+            k_ = self.rng.randrange(len(s.els))
+            if len(s.els[k_]) > 1 and self.rng.random() < 0.5:
+                s.els[k_] = s.els[k_][:-1]
+            else:
+                s.els[k_] = list(s.els[k_]) + ['X']
+            text = s.raw()
+            self.ctx.count('ops:delete_segment:near-miss')
         self.ops.append(('delete_segment', '/'.join(p), text))
         self.ctx.count('ops:delete_segment')
         # model: the map must know the segment in this loop; first equal segment among children[1:] goes
